@@ -28,6 +28,7 @@ type GenOpts struct {
 	Newlines  bool // newline separators
 	BigNums   bool
 	DictMulti bool // allow dicts with more than one key (their rendering order is a seam)
+	RichText  bool // dict keys and string bodies with backslashes, quotes, control characters, non-BMP runes
 }
 
 func SwarmOpts(r *Rng, cfg CfgSpec) GenOpts {
@@ -46,6 +47,7 @@ func SwarmOpts(r *Rng, cfg CfgSpec) GenOpts {
 	o.Newlines = r.Chance(1, 3)
 	o.BigNums = r.Chance(1, 8)
 	o.DictMulti = true
+	o.RichText = r.Chance(1, 2)
 	return o
 }
 
@@ -79,6 +81,10 @@ var dictNames = []string{"obj", "tbl", "角色"}
 var compNames = []string{"cv", "手枪", "gg"}
 var fnNames = []string{"ff", "gcd", "计算", "hh"}
 var dictKeys = []string{"k", "hp", "名", "v", "k2"}
+
+// richKeys are dict keys / string bodies, written as they appear inside a single-quoted literal,
+// that stress escaping on every path a string takes (printing, JSON, keys of variable maps).
+var richKeys = []string{`a\\b`, `C:\\dir`, `a\\tb`, `tail\\`, `q\"uote`, `it\'s`, `sp ace`, ``, `tab\there`, `nl\nline`, `<x>&y`, `é`, `🎲`, `k:colon`, `1`, `1.5`, `-3`, `__proto__`, `a/b`, `{brace}`, `[0]`, `\\u0041`, `null`, `ke\\\\y`}
 
 func addUniq(xs []string, s string) []string {
 	for _, x := range xs {
@@ -382,6 +388,9 @@ func (g *ProgGen) Str() string {
 	if g.depth > g.o.MaxDepth+1 {
 		return "'" + Pick(g.r, strBodies) + "'"
 	}
+	if g.o.RichText && g.r.Chance(1, 4) {
+		return "'" + Pick(g.r, richKeys) + "'"
+	}
 	switch g.r.Intn(10) {
 	case 0, 1:
 		return "'" + Pick(g.r, strBodies) + "'"
@@ -452,6 +461,9 @@ func (g *ProgGen) Dict() string {
 	used := map[string]bool{}
 	for i := 0; i < n; i++ {
 		k := Pick(g.r, dictKeys)
+		if g.o.RichText && g.r.Chance(1, 3) {
+			k = Pick(g.r, richKeys)
+		}
 		if used[k] {
 			continue
 		}
@@ -549,6 +561,9 @@ func (g *ProgGen) Stmt() (string, bool) {
 				case 0:
 					return d + "." + Pick(g.r, dictKeys) + " = " + g.Int(), false
 				case 1:
+					if g.o.RichText && g.r.Bool() {
+						return d + "['" + Pick(g.r, richKeys) + "'] = " + g.Any(), false
+					}
 					return d + "['" + Pick(g.r, dictKeys) + "'] = " + g.Any(), false
 				case 2:
 					if g.o.Methods {
